@@ -33,9 +33,10 @@ type Case struct {
 	R          int64  `json:"recovery_ns"`
 	D          int64  `json:"switching_delay_ns"`
 	Init       []int  `json:"init"`
-	NameSet    int    `json:"nameSet,omitempty"`    // 0: a..e; 1: names with separators; 2: 300 endpoints
-	InPlace    bool   `json:"inPlace,omitempty"`    // the caller keeps one slice and edits it in place between SetEndpoints calls
-	EmptyFirst int    `json:"emptyFirst,omitempty"` // >0: a construction with an empty list (1 nil, 2 empty slice) is attempted first and must be rejected
+	NameSet    int    `json:"nameSet,omitempty"`     // 0: a..e; 1: names with separators; 2: 300 endpoints
+	InPlace    bool   `json:"inPlace,omitempty"`     // the caller keeps one slice and edits it in place between SetEndpoints calls
+	EditOpts   int    `json:"editOptions,omitempty"` // >0: right after the construction the caller re-uses its options object: 1 both durations one hour, 2 both zero, 3 both negative, 4 the Endpoints field is set to nil
+	EmptyFirst int    `json:"emptyFirst,omitempty"`  // >0: a construction with an empty list (1 nil, 2 empty slice) is attempted first and must be rejected
 	Ops        []Op   `json:"ops"`
 	Failure    *Fail  `json:"failure,omitempty"`
 }
@@ -351,7 +352,18 @@ func Run(c *Case, props map[string]bool) (res Result) {
 			endIfOtherFailed()
 		}
 	}
-	me, err := multiendpoint.NewMultiEndpoint(&multiendpoint.MultiEndpointOptions{Endpoints: initArg, RecoveryTimeout: rawR, SwitchingDelay: rawD})
+	userOpts := &multiendpoint.MultiEndpointOptions{Endpoints: initArg, RecoveryTimeout: rawR, SwitchingDelay: rawD}
+	me, err := multiendpoint.NewMultiEndpoint(userOpts)
+	switch c.EditOpts {
+	case 1:
+		userOpts.RecoveryTimeout, userOpts.SwitchingDelay = time.Hour, time.Hour
+	case 2:
+		userOpts.RecoveryTimeout, userOpts.SwitchingDelay = 0, 0
+	case 3:
+		userOpts.RecoveryTimeout, userOpts.SwitchingDelay = -time.Second, -time.Second
+	case 4:
+		userOpts.Endpoints = nil
+	}
 	if err != nil {
 		fail("C13", "create", "NewMultiEndpoint(%v): %v", init, err)
 		endIfOtherFailed()
